@@ -43,7 +43,7 @@ func namedPositions(nm string, minLen, maxLen int) []position {
 	return out
 }
 
-func c12Catalogue(names []string, minLen, maxLen int) []option {
+func c12Catalogue(names []string, minLen, maxLen int, withRefs bool) []option {
 	var opts []option
 	for ni, nm := range names {
 		nm, pt := nm, pathTemplates[ni%len(pathTemplates)]
@@ -55,6 +55,25 @@ func c12Catalogue(names []string, minLen, maxLen int) []option {
 					n = nm + "2"
 				}
 				pl := plantAtNamed(p, inst, n, pt, gen.J{"description": "s" + strconv.Itoa(pi)})
+				if pt != gen.BasePath {
+					pl = append(pl, gen.P(gen.J{"description": "ok"}, "paths", pt, "get", "responses", "200"))
+				}
+				return pl
+			}})
+			if ni >= 3 || !withRefs {
+				continue
+			}
+			// the schema at this position is a $ref AND has schema-bearing sibling keywords: the nested schemas are schemas
+			// of the document like any other (and the allOf flag applies to the holder)
+			opts = append(opts, option{Label: fmt.Sprintf("refWithChildren[%s]@%s", nm, p.Label), Plants: func(inst, pi int) []gen.Plant {
+				n := nm
+				if inst == 1 {
+					n = nm + "2"
+				}
+				pl := plantAtNamed(p, inst, n, pt, gen.J{"$ref": "#/definitions/refTarget", "description": "r" + strconv.Itoa(pi),
+					"properties": gen.J{"kid": gen.J{"type": "string", "description": "kid"}},
+					"allOf":      []any{gen.J{"description": "member"}},
+					"items":      gen.J{"type": "object", "additionalProperties": gen.J{"description": "deep"}}})
 				if pt != gen.BasePath {
 					pl = append(pl, gen.P(gen.J{"description": "ok"}, "paths", pt, "get", "responses", "200"))
 				}
@@ -446,10 +465,10 @@ func init() {
 		c.Bounds["pairs_chain_len"] = 1
 		c.Bounds["names"] = gen.Sigma
 		c.Bounds["path_templates"] = pathTemplates
-		cat := c12Catalogue(gen.Sigma, 0, single)
+		cat := c12Catalogue(gen.Sigma, 0, single, true)
 		c.Bounds["catalogue_singles"] = len(cat)
 		runDocCatalogue(c, "c12", cat, 1, c12Check)
-		pc := c12Catalogue(pairNames, 0, 1)
+		pc := c12Catalogue(pairNames, 0, 1, c.Thorough())
 		c.Bounds["catalogue_pairs"] = len(pc)
 		runDocCatalogue(c, "c12", pc, 2, c12Check)
 	}, Replay: replayDoc(c12Check)})
